@@ -1124,6 +1124,7 @@ theorem inv_step {s : State} (h : Inv s) (e : Ev) (he : e.enabled s = true) : In
         (by intro k; rw [h.runningTop i ((h.curRunning i).mp hc)]; simp)
         (fun _ => ⟨he, h.runningTop i ((h.curRunning i).mp hc)⟩)
   | badRelease k => exact h
+  | acquireFails k => exact h
   | cancel i => exact inv_cancel h i
   | throw i x => exact inv_throw h i false
   | interrupt i x => exact inv_throw h i true
